@@ -89,13 +89,21 @@ std::shared_ptr<ISource> EntityWithSourcesHDF5::getSource(const size_t index) co
 }
 
 void EntityWithSourcesHDF5::sources(const std::vector<Source> &sources) {
+    // look at the new sources first: a vector that cannot be read (an uninitialized
+    // source in it) is refused before any of the old sources is dropped
+    std::vector<std::string> ids;
+    for (const auto &src : sources) {
+        if (block()->hasEntity(src) ) {
+            const std::string id = src.id();
+            if (std::find(ids.begin(), ids.end(), id) == ids.end())
+                ids.push_back(id);
+        }
+    }
     while (sourceCount() > 0) {
         removeSource(getSource(0)->id());
     }
-    for (const auto &src : sources) {
-        if (block()->hasEntity(src) ) {
-            addSource(src.id());
-        }
+    for (const auto &id : ids) {
+        addSource(id);
     }
 }
 
